@@ -3,6 +3,7 @@ package checks
 import (
 	"bytes"
 	"compress/flate"
+	"compress/gzip"
 	"compress/zlib"
 	"context"
 	"crypto/rsa"
@@ -94,11 +95,32 @@ func subsets(n, k int, f func(sel []int)) {
 	rec(0)
 }
 
+// guardWithin runs f under recover on its own goroutine and waits up to 20 s for it: a call that does not come back is a hang (the
+// goroutine is abandoned; after three of them nothing further is started in this process, every later call is reported the same way).
+var c09Hangs int
+
+func guardWithin(f func()) (panicTrace string, hung bool) {
+	if c09Hangs >= 3 {
+		return "", true
+	}
+	var p string
+	if !returnsWithin(20*time.Second, func() { _, p = guard(func() error { f(); return nil }) }) {
+		c09Hangs++
+		return "", true
+	}
+	return p, false
+}
+
 // respContract checks the response-parsing API contract under recover.
 func respContract(t *core.T, api, family string, f func() (*saml.Assertion, error)) (err error, panicked bool) {
 	var a *saml.Assertion
-	_, p := guard(func() error { a, err = f(); return nil })
+	p, hung := guardWithin(func() { a, err = f() })
 	t.Impl(1)
+	if hung {
+		t.Fail("C09/"+api+"/"+family+"/does-not-return", "%s has not returned after 20 s", api)
+		t.Outcome("hang")
+		return nil, true
+	}
 	if p != "" {
 		site := p[strings.LastIndex(p, "@")+1:]
 		t.Fail("C09/"+api+"/"+family+"/panic@"+site, "%s panicked: %s", api, p)
@@ -123,8 +145,13 @@ func respContract(t *core.T, api, family string, f func() (*saml.Assertion, erro
 // anyContract: value xor error, no panic, for non-response consumers.
 func anyContract(t *core.T, api, family string, f func() (ok bool, err error)) (err error, panicked bool) {
 	var ok bool
-	_, p := guard(func() error { ok, err = f(); return nil })
+	p, hung := guardWithin(func() { ok, err = f() })
 	t.Impl(1)
+	if hung {
+		t.Fail("C09/"+api+"/"+family+"/does-not-return", "%s has not returned after 20 s", api)
+		t.Outcome("hang")
+		return nil, true
+	}
 	if p != "" {
 		site := p[strings.LastIndex(p, "@")+1:]
 		t.Fail("C09/"+api+"/"+family+"/panic@"+site, "%s panicked: %s", api, p)
@@ -552,6 +579,40 @@ func spMetadataFor(sp *saml.ServiceProvider) *saml.EntityDescriptor {
 }
 
 // bomb returns a raw-deflate stream inflating to a well-formed AuthnRequest / LogoutResponse padded to n bytes.
+// paddedFramed is paddedDeflate inside another container: "zlib" (RFC 1950), "gzip" (RFC 1952), "raw+trailing" (a complete raw stream
+// followed by junk), "stored" (raw deflate made of stored blocks only: no compression at all).
+func paddedFramed(kind, prefix, suffix string, n int) []byte {
+	var buf bytes.Buffer
+	var w io.WriteCloser
+	switch kind {
+	case "zlib":
+		w, _ = zlib.NewWriterLevel(&buf, 1)
+	case "gzip":
+		w, _ = gzip.NewWriterLevel(&buf, 1)
+	case "stored":
+		w, _ = flate.NewWriter(&buf, flate.NoCompression)
+	default:
+		w, _ = flate.NewWriter(&buf, 1)
+	}
+	io.WriteString(w, prefix)
+	pad := n - len(prefix) - len(suffix)
+	chunk := bytes.Repeat([]byte("x"), 1<<16)
+	for pad > 0 {
+		m := len(chunk)
+		if pad < m {
+			m = pad
+		}
+		w.Write(chunk[:m])
+		pad -= m
+	}
+	io.WriteString(w, suffix)
+	w.Close()
+	if kind == "raw+trailing" {
+		buf.WriteString("trailing junk after the final block")
+	}
+	return buf.Bytes()
+}
+
 func paddedDeflate(prefix, suffix string, n int) []byte {
 	var buf bytes.Buffer
 	w, _ := flate.NewWriter(&buf, 1)
@@ -706,6 +767,67 @@ func c09Framings(c *core.Ctx, sp *saml.ServiceProvider, idp *saml.IdentityProvid
 				t.Modelled(core.DontCare)
 			}
 		})
+		// the same payload in other containers (some senders zlib- or gzip-compress instead of raw deflate): whatever the library makes of
+		// them, more than 10 MB is never inflated and accepted
+		for _, kind := range []string{"zlib", "gzip", "raw+trailing", "stored"} {
+			if n > 48<<20 || kind == "stored" && n > 11<<20 {
+				continue
+			}
+			kind := kind
+			c.Case(fmt.Sprintf("inflate/idp-get/%s/%d", kind, n), func(t *core.T) {
+				t.NonTrivial()
+				stream := paddedFramed(kind, prefix, suffix, n)
+				q := url.Values{"SAMLRequest": {b64(stream)}}
+				var ms0, ms1 runtime.MemStats
+				runtime.ReadMemStats(&ms0)
+				var err error
+				decoded := 0
+				_, p := guard(func() error {
+					r := httptest.NewRequest("GET", samlgen.IDPSSO+"?"+q.Encode(), nil)
+					var req *saml.IdpAuthnRequest
+					req, err = saml.NewIdpAuthnRequest(idp, r)
+					if err == nil && req != nil {
+						decoded = len(req.RequestBuffer)
+						err = req.Validate()
+					}
+					return nil
+				})
+				runtime.ReadMemStats(&ms1)
+				t.Impl(1)
+				t.Compared()
+				if p != "" {
+					t.Fail("C09/NewIdpAuthnRequest/inflate-"+kind+"/panic@"+p[strings.LastIndex(p, "@")+1:], "panicked: %s", p)
+					return
+				}
+				t.Outcome(fmt.Sprintf("framing-%s-accepted=%v", kind, err == nil))
+				alloc := ms1.TotalAlloc - ms0.TotalAlloc
+				if n > limit && (err == nil || decoded > limit) {
+					t.Fail("C09/NewIdpAuthnRequest/inflate-limit-not-enforced/"+kind, "a %s-framed request of %d bytes on the wire inflating to %d bytes (> 10 MB) was decoded (%d bytes) and accepted=%v", kind, len(stream), n, decoded, err == nil)
+				}
+				if alloc > 256<<20 {
+					t.Fail("C09/NewIdpAuthnRequest/inflate-unbounded-allocation/"+kind, "decoding a %s-framed %d-byte bomb allocated %d MB", kind, n, alloc>>20)
+				}
+			})
+			c.Case(fmt.Sprintf("inflate/logout-redirect/%s/%d", kind, n), func(t *core.T) {
+				t.NonTrivial()
+				lr := string(lrDoc)
+				cut := strings.Index(lr, ">") + 1
+				stream := paddedFramed(kind, lr[:cut]+"<!--", "-->"+lr[cut:], n)
+				var ms0, ms1 runtime.MemStats
+				runtime.ReadMemStats(&ms0)
+				err, pan := anyContract(t, "ValidateLogoutResponseRedirect", "inflate-"+kind, func() (bool, error) { e := sp.ValidateLogoutResponseRedirect(b64(stream)); return e == nil, e })
+				runtime.ReadMemStats(&ms1)
+				if pan {
+					return
+				}
+				if n > limit && err == nil {
+					t.Fail("C09/ValidateLogoutResponseRedirect/inflate-limit-not-enforced/"+kind, "a %s-framed logout response inflating to %d bytes was accepted", kind, n)
+				}
+				if alloc := ms1.TotalAlloc - ms0.TotalAlloc; alloc > 256<<20 {
+					t.Fail("C09/ValidateLogoutResponseRedirect/inflate-unbounded-allocation/"+kind, "a %s-framed %d-byte bomb allocated %d MB", kind, n, alloc>>20)
+				}
+			})
+		}
 		c.Case(fmt.Sprintf("inflate/logout-redirect/%d", n), func(t *core.T) {
 			t.NonTrivial()
 			lr := string(lrDoc)
@@ -935,6 +1057,29 @@ func c09KeyInfoShapes(c *core.Ctx) {
 			is.CreateElement("ds:X509SerialNumber").SetText("1")
 		}},
 		{"two-keyinfo", func(ki, sig *etree.Element) { sig.AddChild(ki.Copy()) }},
+		// siblings of the Signature that merely share its local name (another namespace), with a KeyInfo of their own: with and without a
+		// certificate left in the real KeyInfo
+		{"foreign-namespace-Signature-sibling-with-KeyInfo", func(ki, sig *etree.Element) {
+			f := etree.NewElement("foreign:Signature")
+			f.CreateAttr("xmlns:foreign", "urn:example:not-dsig")
+			f.CreateElement("foreign:KeyInfo").CreateElement("foreign:X509Data")
+			sig.Parent().InsertChildAt(sig.Index()+1, f)
+		}},
+		{"foreign-namespace-Signature-sibling-with-KeyInfo+real-keyinfo-names-no-certificate", func(ki, sig *etree.Element) {
+			ki.Child = nil
+			ki.CreateElement("ds:KeyName").SetText("idp")
+			f := etree.NewElement("foreign:Signature")
+			f.CreateAttr("xmlns:foreign", "urn:example:not-dsig")
+			f.CreateElement("foreign:KeyInfo").CreateElement("foreign:KeyName").SetText("x")
+			sig.Parent().InsertChildAt(sig.Index(), f)
+		}},
+		{"foreign-namespace-Signature-sibling-before+real-keyinfo-removed", func(ki, sig *etree.Element) {
+			sig.RemoveChild(ki)
+			f := etree.NewElement("foreign:Signature")
+			f.CreateAttr("xmlns:foreign", "urn:example:not-dsig")
+			f.CreateElement("foreign:KeyInfo")
+			sig.Parent().InsertChildAt(sig.Index(), f)
+		}},
 		{"certificate-is-attackers", func(ki, sig *etree.Element) {
 			ki.FindElement("./X509Data/X509Certificate").SetText(samlgen.Key("attacker").CertB64)
 		}},
